@@ -616,7 +616,7 @@ def migration15(tdset):
     # If the field belongs to the section and the field's colRef is in its filterSpec,
     # pull the filter setting from the section.
     filter_spec = specs.get(f.parentId)
-    if filter_spec and str(f.colRef) in filter_spec:
+    if isinstance(filter_spec, dict) and str(f.colRef) in filter_spec:
       doc_actions.append(actions.UpdateRecord('_grist_Views_section_field', f.id, {
         'filter': json.dumps(filter_spec[str(f.colRef)])
       }))
@@ -654,6 +654,8 @@ def migration16(tdset):
       parsed_options = json.loads(widget_options)
     except Exception:
       return None   # If invalid widgetOptions, skip this column.
+    if not isinstance(parsed_options, dict):
+      return None   # Same if widgetOptions isn't a JSON object.
 
     visible_col_id = parsed_options.pop('visibleCol', None)
     if not visible_col_id:
@@ -949,7 +951,7 @@ def migration29(tdset):
 
   def is_valid_rule(parentId, rule_id):
     # Valid rule should be an existing column,
-    rule_col = columns.get(rule_id)
+    rule_col = columns.get(rule_id) if isinstance(rule_id, int) else None
     # in the same table.
     return rule_col and rule_col.parentId == parentId
 
@@ -1130,12 +1132,17 @@ def migration34(tdset):
   sections = list(actions.transpose_bulk_action(tdset.all_tables['_grist_Views_section']))
   filters = list(actions.transpose_bulk_action(tdset.all_tables['_grist_Filters']))
   raw_section_ids = set(t.rawViewSectionRef for t in tables)
+
+  def has_filter_bar(section):
+    options = safe_parse(section.options)
+    return isinstance(options, dict) and options.get('filterBar', False)
+
   filter_bar_by_section_id = {
     # Pre-migration, raw sections always showed the filter bar in the UI. Since we want
     # existing raw section filters to continue appearing in the filter bar, we'll pretend
     # here that raw sections have a filterBar value of True. Note that after this migration
     # it will be possible for raw sections to have unpinned filters.
-    s.id: bool(s.id in raw_section_ids or safe_parse(s.options).get('filterBar', False))
+    s.id: bool(s.id in raw_section_ids or has_filter_bar(s))
     for s in sections
   }
 
@@ -1173,7 +1180,8 @@ def migration35(tdset):
   acl_rule_updates = []
   for acl_rule_rec in acl_rules:
     acl_formula = safe_parse(acl_rule_rec.aclFormulaParsed)
-    if not acl_formula or acl_formula[0] != 'Comment':
+    if not (isinstance(acl_formula, list) and len(acl_formula) >= 3
+            and acl_formula[0] == 'Comment'):
       continue
 
     acl_rule_updates.append((
@@ -1367,8 +1375,10 @@ def migration45(tdset):
       time_updated = content.get('timeUpdated')
 
       # Convert milliseconds to seconds for DateTime columns
-      time_created_values.append(int(time_created / 1000) if time_created is not None else 0)
-      time_updated_values.append(int(time_updated / 1000) if time_updated is not None else 0)
+      time_created_values.append(
+        int(time_created / 1000) if isinstance(time_created, (int, float)) else 0)
+      time_updated_values.append(
+        int(time_updated / 1000) if isinstance(time_updated, (int, float)) else 0)
       resolved_values.append(bool(content.get('resolved', False)))
 
       # Remove these fields from JSON content if they exist
